@@ -254,10 +254,34 @@ def run_split(case, v):
     lay = list(LayeredRayTracer(a, b, ice).solutions)
     for q in lay:
         check_chain(v, q, a, b, geo)
+    def found_with_variants(L_, em_, slack_):
+        """Mechanism observables of the known finding "fragile root finding" (see KF-C02-layered-angle-scan): is the counterpart
+        there with a 20 times finer launch-angle scan, or with the receiver moved by 0.1 micrometre along the line of sight?"""
+        out_ = []
+        FT = type("FineScan", (LayeredRayTracer,), {"_angle_checks": 20 * (LayeredRayTracer._angle_checks - 1) + 1})
+        u_ = np.array([b[0] - a[0], b[1] - a[1], 0.0])
+        u_ = u_ / max(np.linalg.norm(u_), 1e-300) if np.any(u_) else np.array([1.0, 0.0, 0.0])
+        for label, mk_ in (("20x finer scan", lambda: FT(a, b, ice)), ("receiver +0.1 um", lambda: LayeredRayTracer(a, b + 1e-7 * u_, ice)), ("receiver -0.1 um", lambda: LayeredRayTracer(a, b - 1e-7 * u_, ice))):
+            try:
+                for q2 in mk_().solutions:
+                    if abs(float(q2.path_length) - L_) / L_ < 1e-3 + slack_ and float(np.max(np.abs(np.asarray(q2.emitted_direction) - em_))) < 0.05 + slack_:
+                        out_.append(label)
+                        break
+            except Exception:       # noqa: BLE001
+                pass
+        return out_
+
     used = set()
     for j, p in enumerate(ref):
         cand = [(abs(float(q.path_length) - float(p.path_length)) / float(p.path_length), i) for i, q in enumerate(lay)]
-        if not v.check(len(cand) > 0, "every solution of the unsplit medium has a layered counterpart", unsplit=len(ref), layered=len(lay), **geo):
+        if not cand:
+            cb0 = 0.0
+            if exp:
+                e0_ = np.asarray(p.emitted_direction, float)
+                # the same closed forms are evaluated inside every sub-layer: error bound of the cancellation mechanism for this ray
+                cb0 = cancellation_bound(n0, k_, a_, float(full.index(float(a[2])) * np.hypot(e0_[0], e0_[1])), min(a[2], b[2]), float(getattr(p, "uniformity_factor", 0.99999)))
+            v.check(False, "every solution of the unsplit medium has a layered counterpart", unsplit=len(ref), layered=len(lay), solution=j, L=float(p.path_length), cancellation_bound_m=cb0,
+                    counterpart_found_with=found_with_variants(float(p.path_length), np.asarray(p.emitted_direction, float), 0.0), **geo)
             continue
         d, i = min(cand)
         q = lay[i]
@@ -270,8 +294,11 @@ def run_split(case, v):
             cb = cancellation_bound(n0, k_, a_, beta, min(a[2], b[2]), uf) * (1 + len(q.paths))
             nv = beta <= 1.05 * float(getattr(p, "beta_tolerance", 0.005))
         same_start = float(np.max(np.abs(np.asarray(q.emitted_direction) - em))) < 0.05 + 3 * cb / L
+        found_with = None
+        if not (d < 1e-3 + 3 * cb / L and same_start):
+            found_with = found_with_variants(L, em, 3 * cb / L)
         if not v.check(d < 1e-3 + 3 * cb / L and same_start, "every solution of the unsplit medium has a layered counterpart", unsplit=len(ref), layered=len(lay), solution=j,
-                       closest_relative_length_difference=float(d), L=L, cancellation_bound_m=cb, **geo):
+                       closest_relative_length_difference=float(d), L=L, cancellation_bound_m=cb, counterpart_found_with=found_with, **geo):
             continue
         used.add(i)
         det = dict(geo, solution=j, L=L, cancellation_bound_m=cb, legs=len(q.paths), near_vertical_window=bool(nv))
@@ -305,6 +332,10 @@ def run_case(case):
 
 def kf_cancellation(case, viol):
     d = viol["detail"]
+    if viol["clause"] == "every solution of the unsplit medium has a layered counterpart":
+        # the closed-form integrals of a deep, near-vertical leg have no digit left (error bound above 1e-3 of the path): r(theta) is
+        # NaN there (logarithm of a non-positive number) and the layered tracer finds nothing
+        return d.get("cancellation_bound_m", 0.0) > 1e-3 * max(d.get("L", 1.0), 1e-9)
     if viol["clause"] in ("Snell's law at a transmission", "mirror law at a reflection", "azimuth kept at a transmission", "sub-paths form a continuous chain"):
         rel = d.get("cancellation_rel", 0.0)
         return rel > 1e-3 or (rel > 0 and d.get("deviation", 1e9) <= d["tolerance"] + 3 * rel)
@@ -332,4 +363,9 @@ def fx_uniform_reflection_points(case, viol):
 
 def kf_layered_angle_scan(case, viol):
     """see KF-C02-layered-angle-scan: roots inside one interval of the fixed launch-angle scan are missed."""
-    return viol["clause"] == "every solution of the unsplit medium has a layered counterpart"
+    # only when the measured observables establish the mechanism: the missing counterpart appears with a finer scan or a nudged receiver
+    return viol["clause"] == "every solution of the unsplit medium has a layered counterpart" and bool(viol["detail"].get("counterpart_found_with"))
+
+
+def fx_clamped_z_uniform(case, viol):
+    return viol["clause"] == "every solution of the unsplit medium has a layered counterpart" and viol["detail"].get("layered") == 0 and not viol["detail"].get("counterpart_found_with")
